@@ -280,6 +280,7 @@ func parentMain(cfg *Config, tier string, seed int64, replay string) int {
 	}
 	keepWork := false
 	defer func() {
+		unmountUnder(work) // a child that died while a case had a filesystem mounted in its scratch directory
 		if !keepWork {
 			os.RemoveAll(work)
 		}
@@ -984,6 +985,25 @@ func loadKnownFindings(prop string) []knownFinding {
 		out = append(out, knownFinding{prop: prop, class: strings.TrimPrefix(f[1], "class="), line: strings.Join(f[1:], " ")})
 	}
 	return out
+}
+
+// unmountUnder detaches every mount point below dir (deepest first).
+func unmountUnder(dir string) {
+	b, err := os.ReadFile("/proc/self/mounts")
+	if err != nil {
+		return
+	}
+	var mps []string
+	for _, l := range strings.Split(string(b), "\n") {
+		f := strings.Fields(l)
+		if len(f) >= 2 && strings.HasPrefix(f[1], dir+"/") {
+			mps = append(mps, strings.ReplaceAll(f[1], "\\040", " "))
+		}
+	}
+	sort.Sort(sort.Reverse(sort.StringSlice(mps)))
+	for _, m := range mps {
+		syscall.Unmount(m, syscall.MNT_DETACH)
+	}
 }
 
 // ---- helpers for workers ----
